@@ -17,6 +17,7 @@ RULE = (
     "it) and adds exactly it; a failed bind changes nothing; binds() = reference set after every op; a fresh connect is "
     "accepted iff the endpoint is in the set — immediately after unbind returns it is refused; established connections "
     "still carry messages; unbind of anything else fails with NoSuchBind."
+    " Family monitor-gone: the socket's monitor was requested and its receiver dropped (before the first bind, or between two binds): bind still returns the endpoint it added to the set, the endpoint accepts, unbind removes it."
 )
 ASSUMPTIONS = ["the OS does not hand out a listening address twice; connection refusal is immediate on loopback / unix sockets",
                "PARTIAL: OS, scheduler and timing are observed, not modelled; unavailable transports are skipped and recorded"]
@@ -56,6 +57,21 @@ def cases(tier, rng):
                    "unbind 1 ep#1", "binds 1", f"probe ep#1 {peer}"]
             out.append(Case(f"stalled-peer-{tr}-{off}#{n}", "net", ops, ["stalled-peer"]))
             n += 1
+    # the socket's monitor was requested and its receiver is GONE (the task reading the events ended): bind and unbind
+    # are none the worse for it — the result of bind still says whether the endpoint is in the set and accepting
+    for tr in trs:
+        for t in ("PULL", "ROUTER", "PUB", "REP"):
+            peer = netgen.PEER[t]
+            for first_live in (False, True):
+                ops = [f"sock 1 {t}", "monitor 1"]
+                if first_live:
+                    ops += [f"bind 1 {tr}", "events 1 1"]
+                ops += ["monitordrop 1", f"bind 1 {tr}", "binds 1"]
+                e = 1 if first_live else 0
+                ops += [f"probe ep#{e} {peer}", f"rawconn 1 ep#{e}", f"rawhs 1 {peer}", "rawwait 1 hs", f"unbind 1 ep#{e}", "binds 1",
+                        f"probe ep#{e} {peer}", f"bind 1 {tr}", "binds 1", f"probe ep#{e + 1} {peer}"]
+                out.append(Case(f"monitor-gone-{t}-{tr}-{int(first_live)}#{n}", "net", ops, ["monitor-gone"]))
+                n += 1
     # accept() itself FAILS for a while (the process is out of file descriptors while a client is queued on the
     # listener): a transient condition of the environment — the endpoint stays bound AND listening, the queued client is
     # accepted once descriptors are available again, unbind / re-bind work as ever
